@@ -360,6 +360,9 @@ type shape struct {
 	name string
 	t    topo
 	p    profile
+	// attrClause: oracle clause (3b) applies (scenario "patterns": the history is built so that every file starts in the
+	// from-state of the operation and agrees with git's reading of the original .gitattributes)
+	attrClause bool
 }
 
 type base struct {
